@@ -3,6 +3,8 @@
 package service
 
 import (
+	"sync"
+
 	"github.com/mdzio/go-mqtt/message"
 	"github.com/mdzio/go-mqtt/sessions"
 )
@@ -277,4 +279,133 @@ func H18_will_during_takeover() {
 	}
 	_ = c
 	vrtReach("C18.will_during_takeover")
+}
+
+// P11: Server.Close while a connection is in the middle of its own teardown (its network end was
+// dropped, its processor is inside stop(), at the point where it removes the session's
+// subscriptions - forced by a hook on the topic store). Server.Close must not return - and must not
+// pull the session and topic stores away - before that teardown has finished: the will is still
+// published to an in-process witness, exactly once. Runs with the race detector (C18) and as a
+// teardown scenario (C16).
+func H18_close_during_teardown() {
+	b := vrtBroker("mockSuccess")
+	wit := vrtNewInproc()
+	b.svr.Subscribe("w", 1, &wit.fn)
+	s, _ := b.connect(vrtConnectWithWill([]byte("s"), vrtBool("clean"), vrtWill{flag: true, qos: 0, topic: []byte("w"), payload: []byte("last words")}))
+	vrtExchange(s, &specPkt{Typ: specSUBSCRIBE, ID: 1, Topics: [][]byte{[]byte("t")}, QoS: []byte{1}})
+	if vrtBool("second_connection") {
+		b.connect(vrtConnectPkt([]byte("other"), true))
+	}
+	closeReturned, hookRan, early := false, false, false
+	var mu sync.Mutex
+	vrtTopicsHook.onUnsubscribe = func(f []byte) {
+		if hookRan {
+			return
+		}
+		hookRan = true
+		vrtGo(func() {
+			b.svr.Close()
+			mu.Lock()
+			closeReturned = true
+			mu.Unlock()
+		})
+		vrtQuiesce() // Close gets as far as it can while this teardown is held up
+		mu.Lock()
+		early = closeReturned
+		mu.Unlock()
+	}
+	s.peerClose()
+	vrtQuiesce()
+	vrtJoin()
+	vrtTopicsHook.onUnsubscribe = nil
+	vrtAssert("C18.harness_hook_ran", hookRan)
+	vrtAssert("C16.close_waits_for_a_teardown_in_progress", !early)
+	got := wit.take()
+	vrtAssert("C16.will_dealt_with_despite_close", len(got) == 1)
+	mu.Lock()
+	vrtAssert("C16.server_close_returns", closeReturned)
+	mu.Unlock()
+	vrtReach("C18.close_during_teardown")
+}
+
+// P12: Server.Close against a connection that is being accepted at the same moment (the accept
+// loop hands every connection to its own goroutine, and Close is what stops the loop, so the two
+// are concurrent by design): the list of connections is shared between them.
+func H18_close_vs_accept() {
+	b := vrtBroker("mockSuccess")
+	if vrtBool("one_established") {
+		b.connect(vrtConnectPkt([]byte("old"), true))
+	}
+	c := vrtNewConn()
+	b.conns = append(b.conns, c)
+	c.peerSend(specEncode(vrtConnectPkt([]byte("new"), true)))
+	vrtGo(func() { b.svr.handleConnection(c) })
+	vrtGo(func() { b.svr.Close() })
+	vrtJoin()
+	vrtQuiesce()
+	vrtReach("C18.close_vs_accept")
+}
+
+// P13: Server.Close while a connection that has a will is in the middle of a fan-out (held up by a slow
+// in-process subscriber, with a second matching subscriber behind it): whatever Close does on that
+// connection's behalf (its will is due) must not share the processor's working state with the processor
+// (round-7 change C18-13 published the will from the closing goroutine before the processor had
+// stopped).
+func H18_close_during_fanout() {
+	b := vrtBroker("mockSuccess")
+	g := vrtNewGate()
+	b.svr.Subscribe("t", 1, &g.fn)
+	s2, _ := b.connect(vrtConnectPkt([]byte("s2"), true))
+	vrtExchange(s2, &specPkt{Typ: specSUBSCRIBE, ID: 1, Topics: [][]byte{[]byte("t"), []byte("w")}, QoS: []byte{1, 1}})
+	in2 := vrtNewInproc()
+	b.svr.Subscribe("w", 1, &in2.fn)
+	c, _ := b.connect(vrtConnectWithWill([]byte("c"), true, vrtWill{flag: true, qos: vrtConcretizeByte(vrtByte("willqos") & 1), topic: []byte("w"), payload: []byte("will")}))
+	c.peerSend(specEncode(&specPkt{Typ: specPUBLISH, Flags: 2, ID: 5, Topic: []byte("t"), Payload: []byte("live")}))
+	vrtQuiesce() // c's processor is now inside the fan-out, held up by the slow subscriber
+	vrtGo(func() { b.svr.Close() })
+	vrtQuiesce()
+	g.release()
+	vrtJoin()
+	vrtQuiesce()
+	vrtReach("C18.close_during_fanout")
+}
+
+// P14: a ring is closed by another goroutine (teardown, Server.Close) while its consumer is working on a
+// block that straddles the end of the ring - the only case in which the consumer uses the ring's scratch
+// buffer (round-7 change C18-14 let Close drop that scratch buffer). Exploring scheduler, race detector.
+func H18_ring_close_vs_wrapped_consumer() {
+	bf, err := newBuffer(1)
+	if err != nil {
+		panic(err)
+	}
+	c := bf.size - 3 // six unread bytes, three on each side of the end of the ring
+	bf.cseq.set(c)
+	bf.pseq.set(c + 6)
+	bf.pseq.gate = c
+	for i := int64(0); i < 6; i++ {
+		bf.buf[(c+i)&bf.mask] = byte('a' + i)
+	}
+	cop := vrtChoice("cop", 2)
+	sum := 0
+	vrtGo(func() {
+		for round := 0; round < 2; round++ {
+			var p []byte
+			var err error
+			if cop == 0 {
+				p, err = bf.ReadPeek(6)
+			} else {
+				p, err = bf.ReadWait(6)
+			}
+			if err != nil {
+				return
+			}
+			for _, x := range p {
+				sum += int(x)
+			}
+		}
+	})
+	vrtGo(func() { bf.Close() })
+	vrtJoin()
+	_ = sum
+	vrtReach("C18.ring_close_vs_wrapped_consumer")
 }
